@@ -369,6 +369,75 @@ VResult o_state(const VCase &c) {
   return r;
 }
 
+// (1b) a history of iterations on the SAME cell object, as a real run does:
+// the mean intensity counters are reset and refilled every iteration, the ionic
+// fractions of the previous iteration are still in the cell when the next
+// calculation starts (a stage that one branch forgets to set keeps its old
+// value)
+VResult o_history(const VCase &c) {
+  VResult r;
+  const int K = (int)c.i("iterations");
+  In s0;
+  s0.n = c.d("n");
+  s0.T = c.d("T");
+  s0.AHe = c.d("AHe");
+  for (int i = 0; i < 5; ++i)
+    s0.Am[i] = c.d("Ametal", i);
+  s0.eH = c.d("ethr", 0);
+  s0.eHe = c.d("ethr", 1);
+  Abundances ab(s0.AHe, s0.Am[0], s0.Am[1], s0.Am[2], s0.Am[3], s0.Am[4]);
+  IonizationStateCalculator calc(1., ab, RR(), CT());
+  IonizationVariables v;
+  bool had_flux = false, zero_after_flux = false, hard = false;
+  for (int k = 0; k < K; ++k) {
+    In s = s0;
+    s.nu = c.dv(fmt("nu%d", k));
+    s.w = c.dv(fmt("w%d", k));
+    s.JH = c.d(fmt("JH%d", k));
+    const Est e = estimators(s);
+    if (k == 0) {
+      fill(v, s, e);
+    } else {
+      // what the simulation does between iterations
+      v.reset_mean_intensities();
+      for (int i = 0; i < NUMBER_OF_IONNAMES; ++i)
+        v.set_mean_intensity(i, e.j[i]);
+      v.set_heating(HEATINGTERM_H, e.hH);
+      v.set_heating(HEATINGTERM_He, e.hHe);
+    }
+    if (s.JH > 0.) {
+      had_flux = true;
+      for (double f : s.nu)
+        hard = hard || f > 1.2e16;
+    } else if (had_flux)
+      zero_after_flux = true;
+    try {
+      calc.calculate_ionization_state(e.jfac, e.hfac, v);
+    } catch (const VerifAbort &a) {
+      r.fail(fmt("iteration %d: ionization state calculation aborted: ", k) + a.msg);
+      return r;
+    }
+    const std::string m = check_fractions(v);
+    if (!m.empty()) {
+      r.fail(fmt("iteration %d of %d on the same cell: ", k, K) + m);
+      return r;
+    }
+    if (s.n > 0. && s.JH == 0. && v.get_ionic_fraction(ION_H_n) != 1.) {
+      r.fail(fmt("iteration %d: no ionizing radiation but hydrogen neutral "
+                 "fraction %.17g",
+                 k, v.get_ionic_fraction(ION_H_n)));
+      return r;
+    }
+  }
+  r.label(s0.AHe > 0. ? "He-present" : "H-only");
+  if (zero_after_flux)
+    r.label("zero-flux-after-irradiation");
+  if (hard)
+    r.label("hard-photons");
+  r.nontrivial = had_flux && K >= 2 && s0.n > 0.;
+  return r;
+}
+
 // (2) TemperatureCalculator::calculate_temperature on one cell
 VResult o_temperature(const VCase &c) {
   VResult r;
@@ -656,6 +725,28 @@ VResult o_subgrid(const VCase &c) {
   return r;
 }
 
+VCase gen_history() {
+  VCase c;
+  const int K = (int)vr::irange(2, 5);
+  c.I("iterations", K);
+  for (int k = 0; k < K; ++k) {
+    VCase t;
+    gen_spectrum(t);
+    c.D(fmt("nu%d", k), t.dv("nu")).D(fmt("w%d", k), t.dv("w"));
+    // zero flux is frequent: a cell that was irradiated and then shadowed
+    c.D(fmt("JH%d", k), (k > 0 && vr::coin(0.35)) ? 0. : gen_flux(vr::coin(0.7)));
+    if (k == 0)
+      c.D("ethr", t.dv("ethr"));
+  }
+  double n = gen_density();
+  if (n == 0. && vr::coin(0.8))
+    n = std::pow(10., vr::uni(4., 12.));
+  c.D("n", n);
+  c.D("T", gen_temperature());
+  gen_abundances(c, 0);
+  return c;
+}
+
 VCase gen_subgrid_case() {
   VCase c = gen_cell(0, vr::coin(0.3));
   c.I("do_temperature", vr::coin(0.5) ? 1 : 0);
@@ -712,6 +803,13 @@ int main(int argc, char **argv) {
                     {"no-He-ionizing-photons", 0.1},
                     {"zero-flux", 0.03},
                     {"vacuum", 0.02}}});
+  props.push_back({"state_history", 300000, gen_history, o_history,
+                   "2-5 iterations on the same cell object (reset_mean_intensities "
+                   "+ new estimators from a new spectrum/flux, 35% zero flux after "
+                   "the first iteration, ionic fractions of the previous iteration "
+                   "left in place as in a real run); bounds and sums after every "
+                   "iteration. Non-trivial: >=2 iterations, some flux, n>0.",
+                   {{"zero-flux-after-irradiation", 0.2}}});
   props.push_back({"hydrogen_balance", 1200000, [] { return gen_cell(2); }, o_state,
                    dom + " Hydrogen-only gas (He abundance exactly 0) through "
                          "the cell entry point; same oracle as state_physical.",
